@@ -3,6 +3,7 @@
 Run-time index batches, extract_pair's index and compress/expand masks are fully symbolic (all index vectors / all 2^n masks at once).
 Compile-time masks, slide/rotate counts and insert positions are programs: a bounded family of instantiations per (type, arch)
 (kernels.swizzle_masks), each proved for all data."""
+import os, random
 import z3
 from .. import kernels as K, gen
 from ..engine import Oblig, region
@@ -14,6 +15,7 @@ BOUNDS = ('all data bit patterns; run-time index vectors: every vector with entr
           '(masks of batches with more than 16 lanes: symbolic inside each aligned 16-lane window with an all-0 background (quick) / all-0 and all-1 backgrounds (thorough); thorough: fully symbolic up to 32 lanes); compile-time patterns: n=2 all, n=4 structured + random (thorough: all 256), n>=8 identity, reverse, broadcasts, rotations, pair/half swaps, '
           'lo/hi duplication, zip/unzip, in-quarter reverse, cross-lane and half-mixing patterns + R seeded random masks (R=8 quick / 48 thorough), '
           'same for two-input shuffles; slide byte counts / rotate counts / insert positions: all (n<=8 or thorough) or a boundary subset. '
+          'quick tier, batches of more than 16 lanes: extract_pair / compress / expand are proved for the result lanes at the register and 128-bit boundaries + 6 seeded lanes (all lanes: thorough). '
           'Outside: compile-time masks not in the family.')
 ASSUMPTIONS = ['clang-14 -O1 lowering is correct', 'x86 intrinsic models', 'run-time indices < size, extract_pair index < size (asserted by the library)',
                'batch_bool masks canonical']
@@ -25,6 +27,10 @@ def kernels(tier, seed):
     # quick: one architecture per distinct data-movement kernel file (the others inherit these bodies); thorough: all 23 + emulated
     archs = QUICK_ARCHS if tier == 'quick' else gen.ALL_ARCHS + ['emu128', 'emu256']
     return K.c05(archs, tier, seed)
+
+
+def job_priority(k):
+    return lanes(k.ty, k.arch) if k.op in ('extract_pair', 'compress', 'expand', 'transpose', 'swizzle_dyn') else 0
 
 
 def exec_opts(k):
@@ -122,7 +128,13 @@ def obligations(run):
     else:
         raise KeyError(op)
     obs = []
-    for i in range(n):
+    which = range(n)
+    if os.environ.get('XV_TIER') == 'quick' and n > 16 and op in ('extract_pair', 'compress', 'expand'):
+        # quick tier: result lanes at the register / 128-bit-lane boundaries + 6 seeded ones (every lane: thorough); each lane is still
+        # proved for all data, all masks / all indices
+        rng = random.Random('%s|%s' % (k.name, os.environ.get('VERIF_SEED') or 0))
+        which = sorted(set([0, 1, n // 2 - 1, n // 2, n - 2, n - 1, 16 * 8 // w - 1, 16 * 8 // w] + [rng.randrange(n) for _ in range(6)]))
+    for i in which:
         ra = [D[0]['lanes'][i]] if D and D[0]['kind'] == 'v' else None
         obs.append(Oblig(op, pre, (lambda i: lambda res: tobv(bits_of(res[i]), w) == want[i])(i), lane=i,
                          region_args=[D[2]['sym']] if op == 'extract_pair' else []))
